@@ -213,14 +213,16 @@ class EmuSession(object):
         if self.dead:
             raise nfc.clf.TimeoutError("power cut")
         nw = len(self.mem.writes)
+        before = bytes(self.mem.data)
         try:
             rsp = self.emu.process_command(bytearray(data))
         except Exception as e:  # the emulation crashed: the reader sees silence
             self.emu_exception = type(e).__name__
             rsp = None
         self.responses.append(None if rsp is None else bytes(rsp))
-        if len(self.mem.writes) > nw or (len(data) > 1 and data[1] == 0x08 and rsp is not None and
-                                          len(rsp) >= 12 and rsp[10] == 0):
+        # state-changing: a write command that changed the memory or was acknowledged
+        if len(data) > 1 and data[1] == 0x08 and (before != bytes(self.mem.data) or
+                                                  (rsp is not None and len(rsp) >= 12 and rsp[10] == 0)):
             self.log.append({'blocks': [w[0] for w in self.mem.writes[nw:]],
                              'data': b''.join(w[1] for w in self.mem.writes[nw:]), 'frame': bytes(data)})
             if self.cut_after is not None and len(self.log) >= self.cut_after:
